@@ -75,7 +75,7 @@ def parseFacts (kv : KV) : Option Facts := do
     | "-" => some false
     | _ => none)
   pure {
-    ccid := ← kvNat kv "ccid", maOn := ← kvBool kv "maon", store := ← kvBool kv "store",
+    ccid := ← kvNat kv "ccid", maOn := ← kvBool kv "maon", store := ← kvBool kv "store", store2 := ← kvBool kv "store2",
     confh := ← kvOptNat kv "confh" "none", prevKnown := ← kvBool kv "prevknown",
     sfp := ← kvNatOr kv "sfp" 0, pmah := ← kvOptNatOr kv "pmah" "nil",
     fex := ← kvBool kv "fex", ftome := ← kvBool kv "ftome", recvd := ← kvBool kv "recvd", gate := ← kvBool kv "gate",
